@@ -204,6 +204,8 @@ class C19(Check):
                                 # the same estimator object first fitted (and used) on other data of the same shape, then refitted
                                 yield {"est": "cp", "n": n, "xd": xd, "yd": list(yd), "rank": rank, "reg": group["reg"],
                                        "rs": rs, "iters": it, "seed": seed, "refit": True}
+                                yield {"est": "cp", "n": n, "xd": xd, "yd": list(yd), "rank": rank, "reg": group["reg"],
+                                       "rs": rs, "iters": it, "seed": seed, "failed_refit": True}
         elif est == "tucker":
             for yd in c["tk_yd"]:
                 for ranks in tucker_ranks(len(xd), tier):
@@ -214,6 +216,8 @@ class C19(Check):
                             if rs == c["rstates"][0]:
                                 yield {"est": "tucker", "n": n, "xd": xd, "yd": list(yd), "ranks": list(ranks),
                                        "reg": group["reg"], "rs": rs, "iters": it, "seed": seed, "refit": True}
+                                yield {"est": "tucker", "n": n, "xd": xd, "yd": list(yd), "ranks": list(ranks),
+                                       "reg": group["reg"], "rs": rs, "iters": it, "seed": seed, "failed_refit": True}
         else:
             yd, nc = list(group["yd"]), group["nc"]
             base = {"est": "plsr", "n": n, "xd": xd, "yd": yd, "nc": nc, "off": group["off"], "seed": seed}
@@ -275,6 +279,16 @@ class C19(Check):
             ctx.count(f"guarded_out:fit-raises:{name}/{xcls}/{tcls}/{type(e).__name__}")
             ctx.outcome(f"{est}:fit-raises:{type(e).__name__}")
             return
+        if case.get("failed_refit"):
+            # history: good fit, then a fit that raises in its first sweep (sample counts of X and y differ) and is caught by the caller;
+            # the estimator the caller keeps must still be consistent (all attributes of the good fit, or all of a new one)
+            try:
+                y_bad = np.concatenate([y, y[:1]], axis=0)
+                model.fit(X, y_bad)
+                ctx.count(f"guarded_out:inconsistent-refit-did-not-raise:{name}")
+                return
+            except Exception as e:
+                ctx.count(f"failed-refit-histories:{type(e).__name__}")
         W = np.asarray(model.weight_tensor_)
         vecW = np.asarray(model.vec_W_)
         if est == "cp":
